@@ -416,6 +416,8 @@ class MinMaxAggregator:
             if blit == agg:
                 continue
             blit_vars = set(collect_ast(blit, "Variable"))
+            if blit.ast_type == ASTType.Literal and blit.atom.ast_type in (ASTType.BodyAggregate, ASTType.Aggregate):
+                blit_vars = global_vars_inside_body([blit])  # the local variables of another aggregate stay local
             if len(blit_vars.intersection(inside_variables)) != 0:
                 rest_vars.update(blit_vars)
                 lits_with_vars.append(blit)
